@@ -118,6 +118,11 @@ def judge(ctx, cases, chunk=40000, timeout=3000):
     ctx.traces += len(cases)
     ctx.cover['conformance_tlc_states'] = ctx.cover.get('conformance_tlc_states', 0) + st['states']
     ctx.cover['conformance_tlc_wall_s'] = round(ctx.cover.get('conformance_tlc_wall_s', 0) + st['wall'], 1)
+    rej = set(rejected)
+    from harness import canary
+    from checks import canaries
+    canary.probe(ctx, 'Conf_Parser', [c for i, c in enumerate(cases, 1) if i not in rej], canaries.parser,
+                 canary.by_cases('Conf_Parser', strip))
     return [cases[i - 1] for i in rejected]
 
 
